@@ -193,7 +193,12 @@ func fmtRes(res []uint64, err error) string {
 	if err != nil {
 		return errClass(err)
 	}
-	return fmt.Sprintf("ok:%v", res)
+	// every result in these modules is an i32 or a funcref that is not printed: the upper half of an i32 slot is unspecified
+	m := make([]uint64, len(res))
+	for i, v := range res {
+		m[i] = uint64(uint32(v))
+	}
+	return fmt.Sprintf("ok:%v", m)
 }
 
 // guard turns a Go panic that escapes a wazero API call into an observation.
